@@ -11,9 +11,10 @@ import (
 func init() {
 	props["C19"] = &propMeta{
 		run: runC19,
-		explanation: "Decode(Encode(words)) == words for all word lists, and the exact splitting of Go identifiers, are laws about runtime strings and are not decided (the pinned tree in fact splits UID / HTTPS / UTF8-at-end wrongly; see DESIGN.md). " +
+		explanation: "Decode(Encode(words)) == words for all word lists, and the exact splitting of arbitrary Go identifiers, are laws about runtime strings and are not decided. " +
 			"Decided: agreement of each matched encoder/decoder pair on the separator; that decoders never reject a digit (the encoders' alphabet); that every word a decoder emits is lower-cased or validated lower-case; that after a separator the next word starts " +
-			"exactly past that separator's width; that the initialism table consists of non-empty upper-case constants and is scanned completely (no order-dependent early exit).",
+			"exactly past that separator's width; that the initialism table consists of non-empty upper-case constants and every scan of it is complete; that wherever a word is cut after an initialism the candidate is the longest one (sorted by descending length, taken from the front, " +
+			"with back-off in the recursive split) so that no initialism is shadowed by a shorter one that prefixes it (HTTPS/HTTP, UID/UI: defect D13, fixed); that the Go-identifier decoder sends every all-upper-case word, including the last, through the extractor (D14, fixed).",
 		assumptions: []string{"unicode and x/text/cases behave as documented"},
 	}
 }
